@@ -17,6 +17,10 @@ Definition pf_unbounded_count := Eval vm_compute in failing answered cases_unbou
 Print pf_unbounded_count.
 Definition pf_alive := Eval vm_compute in (if alive_at_end then [] else [0]) : list Z.
 Print pf_alive.
+(* concurrency phase (run-time check only): concurrent clients against a node in a child
+   process; 1 = every request answered and the process still answering afterwards *)
+Definition pf_concurrency := Eval vm_compute in failing (fun c : Z => c =? 1) cases_concurrency.
+Print pf_concurrency.
 (* what was explored: how many verify requests were in the situation of F6 *)
 Definition n_double_spend := Eval vm_compute in
   count_true (fun c : vfacts * Z => let '(f, _) := c in
